@@ -200,6 +200,18 @@ def check(ctx):
     ctx.ob("C02.B2", f"{gather.short}/list-shape", ok, loc(gather),
            "[a, [5, 6], (b, 7)] evaluates back to a list of the values in order; the node-free child is the very object; the nested tuple is a tuple" if ok else
            f"[a, [5, 6], (b, 7)] is gathered into an expression that evaluates to {got!r}")
+    # equal-but-distinguishable plain values beside the same node (1 == True == 1.0 and hash alike): anything keyed by the children
+    # of a container (a memo of gathered tuples, a set of seen items) merges what direct evaluation keeps apart
+    r = g_([(a, 1), (a, True), (a, 1.0), {1: a}, {True: a}])
+    try:
+        got = rebuild(r) if isinstance(r, Obj) and r.cls is call_c else None
+    except TypeError:
+        got = None
+    okd = same(got, [("Va", 1), ("Va", True), ("Va", 1.0), {1: "Va"}, {True: "Va"}])
+    ctx.ob("C02.B2", f"{gather.short}/equal-but-distinct-values", okd, loc(gather),
+           "[(a, 1), (a, True), (a, 1.0), {1: a}, {True: a}] evaluates back with every value of its own type" if okd else
+           f"[(a, 1), (a, True), (a, 1.0), {{1: a}}, {{True: a}}] is gathered into an expression that evaluates to {got!r}: values that compare "
+           f"equal but are not the same (1 / True / 1.0) were merged")
     kd = {"p": a, b: 2}
     r = g_(kd)
     try:
